@@ -1,4 +1,4 @@
-import BumpVerif.Proofs.Frame
+import BumpVerif.Proofs.Tiling
 /-! # C10 — chunk iteration yields exactly the allocated bytes, newest first
 
 In the model `iter_allocated_chunks` and `iter_allocated_chunks_raw` are the same walk
@@ -62,34 +62,45 @@ theorem iter_covers_once {E a b bn} (h : ArenaWF E a) (hb : InChunk a b bn) (hpo
 bytes just below the finger, so consecutive objects are adjacent. -/
 theorem uniform_no_padding (M : Nat) (c : Chunk) (sz A : Nat) (hA : IsPow2 A) (hMA : M ≤ A) (hA16 : A ≤ 16)
     (hdp : c.data ≤ c.ptr) (hptr : c.ptr < 2 ^ 63) (hAp : A ∣ c.ptr) (hAs : A ∣ sz) (hfit : sz ≤ c.ptr - c.data) :
-    allocFast M c sz A = some (c.ptr - sz) := by
-  have hU : USIZE = 2 ^ 64 := rfl
-  have hru : roundUpTo sz A = some sz := roundUpTo_of_dvd hA.pos hAs (by omega)
-  unfold allocFast
-  rw [if_neg (by omega)]
-  by_cases heq : A = M
-  · rw [if_pos heq, hru]
-    simp only
-    rw [if_neg (by omega), wsub_eq (by omega) (by omega)]
-  · rw [if_neg heq, hru]
-    simp only
-    have hmod : c.ptr % A = 0 := Nat.mod_eq_zero_of_dvd hAp
-    rw [hmod, wsub_eq (Nat.zero_le _) (by omega), Nat.sub_zero, wsub_eq hdp (by omega)]
-    rw [if_neg (by omega), wsub_eq (by omega) (by omega)]
+    allocFast M c sz A = some (c.ptr - sz) := Bump.uniform_no_padding M c sz A hA hMA hA16 hdp hptr hAp hAs hfit
 
 /-- …and a fresh chunk starts at its footer, which is 16-aligned, so the first object of a
-chunk ends exactly at the footer: no bytes after the objects either. Together with
-`uniform_no_padding` (no bytes between) and the finger being the slice start (no bytes before),
-the slice `[ptr, footer)` is exactly the concatenation of the objects, most recent first. -/
+chunk ends exactly at the footer: no bytes after the objects either. -/
 theorem uniform_first_in_chunk {M : Nat} {c : Chunk} (sz A : Nat) (hw : ChunkWF M c) (hfresh : c.ptr = c.footer)
     (hA : IsPow2 A) (hMA : M ≤ A) (hA16 : A ≤ 16) (hAs : A ∣ sz) (hfit : sz ≤ c.footer - c.data) :
-    allocFast M c sz A = some (c.footer - sz) := by
-  have h16 := footer_al hw
-  have hAp : A ∣ c.ptr := by rw [hfresh]; exact Nat.dvd_trans (hA.dvd_of_le isPow2_16 hA16) h16
-  have hfl := footer_lt hw
-  have := uniform_no_padding M c sz A hA hMA hA16 hw.ptr_ge (by have := hw.hi; have := hw.ptr_le; have := FS; omega) hAp hAs
-    (by rw [hfresh]; exact hfit)
-  rw [this, hfresh]
+    allocFast M c sz A = some (c.footer - sz) := Bump.uniform_first_in_chunk sz A hw hfresh hA hMA hA16 hAs hfit
+
+/-- **Uniform histories: the slices are exactly the objects.** Start from an arena a constructor
+returned and run any history in which every allocation (any flavour, incl. fallible initialisers
+and fallible slice fills that fail, across chunk boundaries, with `reset`s and limit changes in
+between) has the same alignment `A` (`MIN_ALIGN ≤ A ≤ 16`) and a size that is a multiple of `A`.
+Then in every chunk the sizes of the live objects lying in its used part add up to exactly the
+length of the used part `[finger, footer)` — and by C01 those objects are inside it and pairwise
+disjoint: the slice chunk iteration yields consists of the objects and nothing else (no byte
+before, between or after), and (`iter_slices`) slices come newest chunk first. -/
+theorem uniform_history_tiles {E M cap a A} (f : Bool) (s0 : St) (hE : EnvOK E) (hM : IsPow2 M) (hMle : M ≤ 16)
+    (hA : IsPow2 A) (hA16 : A ≤ 16)
+    (hctor : (newArena E M cap f s0).2 = .ok a) (ops : List Op)
+    (hrun : UniformRun E A ops ⟨{ (newArena E M cap f s0).1 with a := a }, []⟩) :
+    let y := (sysRun E ops ⟨{ (newArena E M cap f s0).1 with a := a }, []⟩).1
+    LiveInv E y ∧ ∀ c ∈ y.st.a.chunks, liveBytesIn c y.live = c.footer - c.ptr := by
+  intro y
+  obtain ⟨hwf, _, _, hsh⟩ := (newArena_spec f s0 hM hMle).ok a hctor
+  have hinit : Tiled A a [] := by
+    apply tiled_init
+    · intro c hc
+      rcases hsh with ⟨hn, _, _⟩ | ⟨c0, refs, hc0, _, _, hpf, _⟩
+      · rw [hn] at hc; cases hc
+      · rw [hc0] at hc; simp only [List.mem_singleton] at hc; subst hc; exact hpf
+    · intro c hc
+      rcases hsh with ⟨hn, _, _⟩ | ⟨c0, refs, hc0, _, _, hpf, _⟩
+      · rw [hn] at hc; cases hc
+      · have hw := hwf.chunks c hc
+        rw [hc0] at hc; simp only [List.mem_singleton] at hc; subst hc
+        rw [hpf]; exact A_dvd_footer hw hA hA16
+  have := tiled_history hE hA hA16 ops ⟨{ (newArena E M cap f s0).1 with a := a }, []⟩
+    (init_live _ hwf rfl) hinit hrun
+  exact ⟨this.1, this.2.exact⟩
 
 example : allocFast 4 ⟨4096, 560, 16, 4608, 512⟩ 24 8 = some 4584 := by decide
 
@@ -99,3 +110,4 @@ end Bump.C10
 #print axioms Bump.C10.iter_covers_once
 #print axioms Bump.C10.uniform_no_padding
 #print axioms Bump.C10.uniform_first_in_chunk
+#print axioms Bump.C10.uniform_history_tiles
